@@ -316,6 +316,7 @@ bool TypeAuditor::ViGlobalDeclaration(Cursor iter) {
     
     const auto& type = std::get<Typification>(maybeType.value());
     if (!type.IsCollection()) {
+      OnError(SemanticEID::globalStructure, iter(0).pos.finish);
       return false;
     }
     return SetCurrent(type.B().Base());
